@@ -384,11 +384,37 @@ func mkHarness(cfg config, inputs []input, depth, maxLive int, calls *int64) fun
 				return
 			}
 			w.dec = dec
-			for step := 0; step < depth; step++ {
+			for step := 0; step < depth && maxLive > 0; step++ {
 				ops := w.enabled(maxLive)
 				k := vsync.ChooseFree("op", len(ops))
 				w.apply(ops[k])
 				w.verifyRetained(w.log[len(w.log)-1])
+			}
+			// maxLive < 0 selects the "complete uses" alphabet: every step is one whole use of the decoder - Decode(input),
+			// read everything, fetch no / one / all nested results and read them, Close - so that `depth` uses (not `depth`
+			// calls) are chained on the same pooled objects: what a use leaves behind in a pooled object shows two uses later
+			for step := 0; step < depth && maxLive < 0; step++ {
+				k := vsync.ChooseFree("use", len(w.inputs)*3)
+				in, kind := k/3, k%3
+				do := func(o op) {
+					w.apply(o)
+					w.verifyRetained(w.log[len(w.log)-1])
+				}
+				do(op{k: opDecode, in: in})
+				if len(w.live) == 0 {
+					continue
+				}
+				do(op{k: opRead, h: 0})
+				switch kind {
+				case 1:
+					do(op{k: opNested, h: 0})
+				case 2:
+					do(op{k: opNestedAll, h: 0})
+				}
+				if len(w.live[0].nested) > 0 {
+					do(op{k: opReadNested, h: 0})
+				}
+				do(op{k: opClose, h: 0})
 			}
 			// epilogue: release everything, then one more decode of every valid input shape on the recycled objects
 			for len(w.live) > 0 {
@@ -432,9 +458,9 @@ func worker(sh *ev.Shard) {
 	}
 	var calls int64
 	type plan struct{ depth, maxLive, dev int }
-	plans := []plan{{6, 1, 1}, {5, 2, 1}}
+	plans := []plan{{6, 1, 1}, {5, 2, 1}, {3, -1, 1}} // maxLive -1 = sequences of complete uses
 	if sh.Thorough() {
-		plans = []plan{{7, 1, 2}, {6, 2, 2}}
+		plans = []plan{{7, 1, 2}, {6, 2, 2}, {4, -1, 2}}
 	}
 	_ = depth
 	_ = maxLive
